@@ -198,6 +198,11 @@ func Delivery(mb int, o Op) *message.Delivery {
 
 // Do runs one operation and returns its projected result.
 func (s *Sess) Do(o Op) string {
+	if o.Kind == "C" {
+		s.Cap = o.Rep
+		s.Reopen()
+		return "-"
+	}
 	name := Pool()[o.Mb].Name
 	switch o.Kind {
 	case "a":
@@ -221,6 +226,10 @@ func (s *Sess) Do(o Op) string {
 		return errClass(s.Store.RemoveMessage(name, s.id(o.Mb, o.Handle)))
 	case "p":
 		return errClass(s.Store.PurgeMessages(name))
+	case "C": // the server is restarted with another MailboxMsgCap
+		s.Cap = o.Rep
+		s.Reopen()
+		return "-"
 	}
 	return "badop"
 }
